@@ -75,11 +75,18 @@ class SuffixTrie(object):
             if part == node.exception:
                 break
 
+            # Wildcards: match exactly one more label, even if this label
+            # also starts longer explicit rules
+            wildcard = node.children.get("*")
+
+            if wildcard is not None and wildcard.leaf:
+                suffix_length = current_length + 1
+                match = wildcard
+
             child = node.children.get(part)
 
-            # Wildcards
             if child is None:
-                child = node.children.get("*")
+                child = wildcard
 
             # If the current part is not in current node's children, we can stop
             if child is None:
